@@ -10,7 +10,7 @@ for f in specs/*.tla; do
 done
 if [ -d /repo/crates ]; then
   CARGO_NET_OFFLINE=true PYO3_PYTHON=/venv/bin/python CARGO_TARGET_DIR=/verif/out/cargo-target \
-    cargo build --offline --manifest-path /repo/Cargo.toml > out/cargo.log 2>&1 || { echo "cargo build failed (checks that need Rust will retry and report)"; tail -5 out/cargo.log; }
+    cargo build --release --offline --manifest-path /repo/Cargo.toml > out/cargo.log 2>&1 || { echo "cargo build failed (checks that need Rust will retry and report)"; tail -5 out/cargo.log; }
 fi
 /venv/bin/python -c "import greenlet, hypothesis, dulwich; print('python deps ok', dulwich.__file__)" || rc=1
 exit $rc
